@@ -42,6 +42,15 @@ func Bytes(tag string, n int, compressible bool) []byte {
 	return out[:n]
 }
 
+// BytesFixed is Bytes with the seed pinned to 1 (golden files must not
+// depend on VERIF_SEED).
+func BytesFixed(tag string, n int, compressible bool) []byte {
+	old := os.Getenv("VERIF_SEED")
+	os.Setenv("VERIF_SEED", "1")
+	defer os.Setenv("VERIF_SEED", old)
+	return Bytes(tag, n, compressible)
+}
+
 // Zeros returns n zero bytes.
 func Zeros(n int) []byte { return make([]byte, n) }
 
